@@ -19,3 +19,22 @@ pub use state::{Allocation, AllocationId, AllocationState, QueueId};
 
 #[cfg(test)]
 pub use service::tests::test_alloc_service;
+
+/// Verification hooks (feature `verif`): re-exports of already-`pub` items that live in the
+/// private modules of `autoalloc`, plus the wrappers around the private handlers.
+#[cfg(feature = "verif")]
+pub mod verif {
+    pub use super::process::verif::{do_periodic_update, handle_message, perform_submits};
+    pub use super::queue::{
+        AllocationExternalStatus, AllocationStatusMap, AllocationSubmissionResult, QueueHandler,
+        SubmitMode,
+    };
+    pub use super::service::AutoAllocMessage;
+    pub use super::state::verif::{
+        AllocSnap, AllocStateSnap, AutoAllocSnap, LimiterSnap, LostSnap, QueueSnap,
+    };
+    pub use super::state::{
+        AllocationQueue, AllocationQueueState, AllocationWorkdir, AutoAllocState, RateLimiter,
+        RateLimiterStatus,
+    };
+}
